@@ -17,6 +17,11 @@ Decided clauses:
        the last Poly1305 block, the 0x80 of SHA-2, BLAKE2b's zero fill).
   R4.7 the BLAKE2b KDF hands (key, salt = LE64(subkey_id) || 0^8, personal = the caller's 8 context bytes copied
        verbatim || 0^8, outlen = subkey_len, empty message) to the keyed hash.
+  R4.8 (E14 lane provenance) the vectorised BLAKE2b compression functions (SSSE3, SSE4.1, AVX2) add the message words the
+       sigma table of the reference implementation prescribes: the words of the block that reach each `add` of a round are
+       read off the shuffles; round 0 (sigma[0] is the identity) calibrates which sigma position every slot takes, and for
+       every round r and slot s the word must be blake2b_sigma[r][position(s)]. Each round therefore uses each of the 16
+       words exactly once, in the same places as the portable code.
 NOT decided: digest values, chunking associativity, the values of the Poly1305 carries, HKDF chaining.
 """
 from .. import terms as T
@@ -156,3 +161,52 @@ def run(ctx, chk):
             chk.ob("R4.7", kdf, "subkey = BLAKE2b(key, salt = LE64(subkey_id) || 0^8, personal = ctx[0..%d) || 0^8, outlen = subkey_len)" % ctxb,
                    not why, loc=kdf.loc(e.iid), detail="; ".join(why), path=p if why else None, key="R4.7 crypto_kdf_blake2b_derive_from_key")
     chk.floor("R4.7", "BLAKE2b hand-overs in crypto_kdf_blake2b_derive_from_key", n47, 1)
+    schedule_rule(prog, chk)
+
+
+BLAKE2B_VECTOR = ("blake2b_compress_ssse3", "blake2b_compress_sse41", "blake2b_compress_avx2")
+
+
+def schedule_rule(prog, chk):
+    """R4.8: message schedule of the vector BLAKE2b backends == blake2b_sigma of the portable one"""
+    from .. import lanes
+    ref = prog.need("blake2b_compress_ref", rule="R4.8")
+    g = prog.global_def(ref, "blake2b_sigma")
+    if g is None or "init" not in g[1] or g[1]["init"][0] != "agg":
+        raise AnalysisBroken("R4.8: constant table blake2b_sigma not found in %s" % ref.unit)
+    sigma = [row[1] for row in g[1]["init"][1]]
+    if len(sigma) != 12 or any(len(r) != 16 for r in sigma):
+        raise AnalysisBroken("R4.8: blake2b_sigma is not 12 x 16")
+    chk.ob("R4.8", ref, "sigma[0] is the identity and every row is a permutation of 0..15",
+           sigma[0] == list(range(16)) and all(sorted(r) == list(range(16)) for r in sigma), key="R4.8 blake2b_sigma permutations")
+    nb = 0
+    for name in BLAKE2B_VECTOR:
+        fn = prog.fn(name)
+        if fn is None:
+            continue                      # backend not compiled in this configuration
+        bi = fn.param_index("block")
+        if bi is None:
+            raise AnalysisBroken("R4.8: %s has no parameter named block" % name)
+        adds = lanes.message_adds(fn, bi)
+        slots = [(i, w) for i, ws in adds for w in ws]
+        ok_shape = len(slots) == 12 * 16
+        chk.ob("R4.8", fn, "12 rounds x 16 message words are added into the state", ok_shape,
+               detail="%d word additions found" % len(slots), key="R4.8 %s shape" % name)
+        if not ok_shape:
+            continue
+        nb += 1
+        pos = [w for _i, w in slots[:16]]
+        okp = sorted(pos) == list(range(16))
+        chk.ob("R4.8", fn, "round 0 uses each message word once (calibration of slot -> sigma position)", okp,
+               loc=fn.loc(slots[0][0]), detail="round 0 adds words %s" % pos, key="R4.8 %s round0" % name)
+        if not okp:
+            continue
+        for r in range(12):
+            bad = [(s, slots[16 * r + s]) for s in range(16) if slots[16 * r + s][1] != sigma[r][pos[s]]]
+            chk.ob("R4.8", fn, "round %d adds m[sigma[%d][k]] in every slot" % (r, r), not bad,
+                   loc=fn.loc(bad[0][1][0]) if bad else fn.loc(slots[16 * r][0]),
+                   detail="; ".join("slot %d (sigma position %d) adds m[%d], blake2b_sigma[%d][%d] = %d" %
+                                    (s, pos[s], w, r, pos[s], sigma[r][pos[s]]) for s, (_i, w) in bad[:4]),
+                   key="R4.8 %s round %d" % (name, r))
+    if prog.config == "native":
+        chk.floor("R4.8", "vector BLAKE2b backends with a recovered message schedule", nb, 3)
